@@ -81,6 +81,9 @@ func c09DriveStream(ch []byte, trail []byte, run *c09ScrRun, rng *rand.Rand, wel
 			if !lateDone {
 				lateDone = true
 				if err := write(trail); err != nil {
+					if len(payloadFrames) == 0 {
+						return "", "", "write-error", nil, st
+					}
 					return "error-after-output", fmt.Sprintf("Write of trailing data failed after %d frames were handed out: %v", len(payloadFrames), err), "", payloadFrames, st
 				}
 				continue
@@ -90,6 +93,9 @@ func c09DriveStream(ch []byte, trail []byte, run *c09ScrRun, rng *rand.Rand, wel
 		if !lateDone && packets >= 1 && rng.IntN(3) == 0 {
 			lateDone = true
 			if err := write(trail); err != nil {
+				if len(payloadFrames) == 0 {
+					return "", "", "write-error", nil, st
+				}
 				return "error-after-output", fmt.Sprintf("Write of trailing data failed after %d frames were handed out: %v", len(payloadFrames), err), "", payloadFrames, st
 			}
 		}
